@@ -17,6 +17,6 @@ The change must need something specific to manifest — an unusual input, a part
 
 Deliver, inside {wt}:
   1. the change itself, left uncommitted in the working tree (so that `git -C {wt} diff` shows it), touching only files under pymeeus/;
-  2. a demonstration script {wt}/demo_{pid}.py (run with `cd {wt} && /venv/bin/python demo_{pid}.py`) that exits 0 and prints PASS on the unmodified code and exits 1 and prints FAIL (with the offending input and what was expected) on your modified code; it must test the property as stated (not an implementation detail) on the specific input(s) that expose your change. Verify both directions yourself: run it with your change (FAIL), then `git stash`, run it (PASS), then `git stash pop`.
+  2. a demonstration script {wt}/demo_{pid}.py (run with `cd {wt} && /venv/bin/python demo_{pid}.py`) that exits 0 and prints PASS on the unmodified code and exits 1 and prints FAIL (with the offending input and what was expected) on your modified code; it must test the property as stated (not an implementation detail) on the specific input(s) that expose your change. Verify both directions yourself: run it with your change (FAIL), then save your change with `git diff > my.patch` and undo it with `git apply -R my.patch`, run it (PASS), then restore it with `git apply my.patch` (do NOT use `git stash`: the stash is shared between worktrees).
   3. a file {wt}/meta_{pid}.json: {{"property": "{pid}", "summary": "<one line: what you changed>", "needs": "<what specific input/sequence is needed for it to manifest>", "files": ["pymeeus/..."], "demo": "demo_{pid}.py"}}
 Finally reply with the diff, the demo output in both directions, and the pytest summary line with your change applied.""")
